@@ -87,6 +87,19 @@ func (bs *sqlPartStore) PutPart(ctx context.Context, tx database.Tx, partId part
 		}
 	}
 
+	if chunkIndex == 0 {
+		// An empty part still has to exist: without a row GetPart would report
+		// ErrPartNotFound and GetPartIds would not list it.
+		partContentEntity := partContent.Entity{
+			Id:         ptrutils.ToPtr(partId),
+			ChunkIndex: 0,
+			Content:    []byte{},
+		}
+		if saveErr := bs.partContentRepository.SavePartContent(ctx, tx.SqlTx(), bs.partStoreId, &partContentEntity); saveErr != nil {
+			return saveErr
+		}
+	}
+
 	return nil
 }
 
